@@ -85,6 +85,22 @@ class ThreadGraph:
     def vis(self):
         return [n for n in self.nodes if n.kind == "vis"]
 
+    def shortest_path(self):
+        """fewest visible operations from the root to a done node (an uncontended run)"""
+        import heapq
+        dist = {self.root: 0}; h = [(0, self.root)]
+        while h:
+            d, nid = heapq.heappop(h)
+            if d > dist.get(nid, 1 << 30): continue
+            n = self.nodes[nid]
+            if n.kind == "done": return d
+            if n.kind == "vis": nxt = [(n.child, 1)]
+            elif n.kind == "branch": nxt = [(c, 0) for _, c in n.branches]
+            else: nxt = []
+            for c, wgt in nxt:
+                if d + wgt < dist.get(c, 1 << 30): dist[c] = d + wgt; heapq.heappush(h, (d + wgt, c))
+        return self.longest_path()
+
     def longest_path(self):
         """longest acyclic path (in visible nodes) from the root to a done node -- used to size the step bound"""
         import sys
@@ -127,7 +143,10 @@ def build_thread(interp, tid, calls, mem):
         n.rvars = []
         return UNIT
 
-    def explore(st, callidx, results):
+    UNROLL = 3      # retry loops whose state changes in every iteration (fresh reads feed the next attempt) are unrolled this many times
+
+    def explore(st, callidx, results, seen=None):
+        seen = seen or {}
         outs = interp.run(st)
         branches = []
         for o in outs:
@@ -138,6 +157,12 @@ def build_thread(interp, tid, calls, mem):
                 key = (callidx, state_key(s2), sx(desc), sx(dest), tuple(sx(r) for r in results))
                 if key in memo:
                     branches.append((s2.pc, memo[key])); continue
+                fr_ = s2.frames[-1]
+                pp = (callidx, len(s2.frames), fr_.fn.name, fr_.bb, fr_.i, sx(desc[:2]))
+                cnt = seen.get(pp, 0) + 1
+                if cnt > UNROLL:
+                    n = mk("cut", call=callidx, where="%s %s" % (fr_.fn.name.split(">::")[-1], fr_.bb)); branches.append((s2.pc, n.id)); continue
+                seen2 = dict(seen); seen2[pp] = cnt
                 n = mk("vis", desc=desc, call=callidx, pc=s2.pc)
                 memo[key] = n.id
                 rv = result_value(n, desc)
@@ -145,7 +170,7 @@ def build_thread(interp, tid, calls, mem):
                     interp.assign(s2, dest, rv)
                 guard = s2.pc
                 s2.pc = z3.BoolVal(True)
-                n.child = explore(s2, callidx, results)
+                n.child = explore(s2, callidx, results, seen2)
                 branches.append((guard, n.id))
             elif o[0] == "done":
                 _, s2, ret = o
@@ -154,7 +179,7 @@ def build_thread(interp, tid, calls, mem):
                     fn, args, _ = calls[callidx + 1]
                     args = [a(res2) if callable(a) else a for a in args]
                     s3 = TState([Frame(fn, args, None)], z3.BoolVal(True))
-                    branches.append((s2.pc, explore(s3, callidx + 1, res2)))
+                    branches.append((s2.pc, explore(s3, callidx + 1, res2, {})))
                 else:
                     n = mk("done", results=res2); branches.append((s2.pc, n.id))
             elif o[0] == "panic":
